@@ -74,21 +74,26 @@ Theorem C09_frame_map_partial : forall lhash w o w' out j k,
 Proof. exact step_frame_map. Qed.
 Print Assumptions C09_frame_map_partial.
 
-(* FULL STATEMENT (false of the code as it is): "an accepted response never alters the nonce binding of
-   another pending flow".  _map is one namespace for nonce -> state and sub -> state: a provider that issues
-   an ID token with sub = the nonce of another pending flow of the same client re-binds that nonce, and the
-   other flow's own token response is then refused: *)
-Example C09_frame_map_refuted :
+(* Frame, key map (FULL for nonces): the nonce -> state binding of a pending flow survives every operation,
+   accepted or not, except the start of a flow that draws the very same nonce (freshness of rndstr).  _map is
+   one namespace for nonce, sub and sid bindings; Current.bind_key refuses to re-bind a key that is the nonce of
+   another session. *)
+Theorem C09_nonce_binding_stable : forall lhash w o w' out j k s' rec,
+  step lhash w o = (w', out) -> op_draws_nonce o k = false ->
+  map_of w j k = Some s' -> rec_of w j s' = Some rec -> assoc (PS "nonce") rec = Some (VStr k) ->
+  map_of w' j k = Some s'.
+Proof. exact step_keeps_nonce_binding. Qed.
+Print Assumptions C09_nonce_binding_stable.
+
+(* an ID token whose subject is the nonce of another pending flow of the same client is refused, nothing
+   changes, and the other flow is still served *)
+Example C09_sub_is_foreign_nonce_refused :
   let c0 := ex_two_flows (ex_cfg None None false) in
   let c1 := fst (step_authz ex_lhash c0 (ex_authz_resp (PS "S1") None) ex_now) in
-  let c2 := fst (step_token ex_lhash c1 (PS "S1") (ex_token_resp (Some (ex_tok_te (PS "N1") (PS "N2")))) ex_now) in
-  let c3 := fst (step_authz ex_lhash c2 (ex_authz_resp (PS "S2") None) ex_now) in
-  assoc (PS "N2") (cl_map c1) = Some (PS "S2") /\
-  is_ok (snd (step_token ex_lhash c1 (PS "S1") (ex_token_resp (Some (ex_tok_te (PS "N1") (PS "N2")))) ex_now)) = true /\
-  assoc (PS "N2") (cl_map c2) = Some (PS "S1") /\
-  snd (step_token ex_lhash c3 (PS "S2") (ex_token_resp (Some (ex_tok_te (PS "N2") (PS "diana")))) ex_now)
-    = Err E_ParameterError.
-Proof. vm_compute. repeat split. Qed.
+  let c2 := fst (step_authz ex_lhash c1 (ex_authz_resp (PS "S2") None) ex_now) in
+  step_token ex_lhash c2 (PS "S1") (ex_token_resp (Some (ex_tok_te (PS "N1") (PS "N2")))) ex_now = (c2, Err ValueError) /\
+  is_ok (snd (step_token ex_lhash c2 (PS "S2") (ex_token_resp (Some (ex_tok_te (PS "N2") (PS "diana")))) ex_now)) = true.
+Proof. vm_compute. split; reflexivity. Qed.
 
 (* Histories: for every sequence of operations over any number of issuers and pending flows ... *)
 (* ... the record of a state is unchanged by every sequence that never carries that state *)
